@@ -30,9 +30,10 @@ type DeepCase struct {
 	Level   int        `json:"level"`
 	Degree  int        `json:"degree"`
 	BaseTwo int        `json:"baseTwo,omitempty"`
-	ModT    uint64     `json:"modT,omitempty"` // scale modulus (0: floating-point scale)
-	Flags   int        `json:"flags"`          // metadata flags bit field
-	Into    bool       `json:"into,omitempty"` // use Copy(into existing) instead of CopyNew where both exist
+	ModT    uint64     `json:"modT,omitempty"`       // scale modulus (0: floating-point scale)
+	Flags   int        `json:"flags"`                // metadata flags bit field
+	Into    bool       `json:"into,omitempty"`       // use Copy(into existing) instead of CopyNew where both exist
+	Compr   bool       `json:"compressed,omitempty"` // compressed (seeded) evaluation keys
 }
 
 func (c DeepCase) RandSeed() uint64 { return c.Seed }
@@ -53,6 +54,7 @@ func genDeepCase(t *rapid.T) DeepCase {
 	c.ModT = pick(t, "modT", uint64(0), 0, 65537, 257)
 	c.Flags = rapid.IntRange(0, 31).Draw(t, "flags")
 	c.Into = rapid.Bool().Draw(t, "into")
+	c.Compr = rapid.IntRange(0, 2).Draw(t, "compressed") == 0
 	return c
 }
 
@@ -136,9 +138,14 @@ func deepPair(c DeepCase) (orig, cp any, method string, err error) {
 	rng := h.NewSplitMix(c.Seed)
 	levelP := p.MaxLevelP()
 	var ep []rlwe.EvaluationKeyParameters
+	if c.BaseTwo != 0 || c.Compr {
+		b := c.BaseTwo
+		ep = []rlwe.EvaluationKeyParameters{{BaseTwoDecomposition: &b, Compressed: c.Compr}}
+	}
+	var epPlain []rlwe.EvaluationKeyParameters // multiparty shares are never compressed
 	if c.BaseTwo != 0 {
 		b := c.BaseTwo
-		ep = []rlwe.EvaluationKeyParameters{{BaseTwoDecomposition: &b}}
+		epPlain = []rlwe.EvaluationKeyParameters{{BaseTwoDecomposition: &b}}
 	}
 	kgen := rlwe.NewKeyGenerator(p)
 	randPoly := func(level int) ring.Poly {
@@ -249,9 +256,9 @@ func deepPair(c DeepCase) (orig, cp any, method string, err error) {
 		return &o, o.CopyNew(), method, nil
 	case "multiparty.RelinShare":
 		rkg := multiparty.NewRelinearizationKeyGenProtocol(p)
-		_, s1, _ := rkg.AllocateShare(ep...)
-		crp := rkg.SampleCRP(prng, ep...)
-		eph, _, _ := rkg.AllocateShare(ep...)
+		_, s1, _ := rkg.AllocateShare(epPlain...)
+		crp := rkg.SampleCRP(prng, epPlain...)
+		eph, _, _ := rkg.AllocateShare(epPlain...)
 		rkg.GenShareRoundOne(kgen.GenSecretKeyNew(), crp, eph, &s1)
 		return &s1.GadgetCiphertext, s1.GadgetCiphertext.CopyNew(), method, nil
 	case "multiparty.PKSShare":
@@ -345,6 +352,9 @@ func runDeep(c DeepCase, rec *h.Rec) error {
 	if c.BaseTwo != 0 {
 		feat += "base2,"
 	}
+	if c.Compr && (strings.Contains(c.Type, "Key") || strings.Contains(c.Type, "Gadget")) {
+		feat += "compressed,"
+	}
 	if len(c.RLWE.P) == 0 {
 		feat += "noP,"
 	}
@@ -360,6 +370,6 @@ func runDeep(c DeepCase, rec *h.Rec) error {
 	return nil
 }
 
-var propDeep = h.NewProp("TestPropDeepCopy", h.Budget{Quick: 400, Thorough: 16000}, genDeepCase, runDeep)
+var propDeep = h.NewProp("TestPropDeepCopy", h.Budget{Quick: 400, Thorough: 8000}, genDeepCase, runDeep)
 
 func TestPropDeepCopy(t *testing.T) { propDeep.Check(t) }
